@@ -814,12 +814,21 @@ func c04RaceClass(trace []string, writer, prefix string) string {
 		}
 	}
 	lastList, firstPut := -1, -1
+	dir := "" // the index directory the writer's entry went into (prefix + salted owner id + "/")
 	for i, tr := range trace {
-		if strings.HasPrefix(tr, "rev:list:"+prefix) || strings.HasPrefix(tr, "rev:listpage:"+prefix) {
-			lastList = i
-		}
 		if firstPut < 0 && strings.HasPrefix(tr, writer+":put:"+prefix) {
 			firstPut = i
+			key := strings.TrimPrefix(tr, writer+":put:")
+			if j := strings.LastIndex(key, "/"); j >= 0 {
+				dir = key[:j+1]
+			}
+		}
+	}
+	for i, tr := range trace {
+		// only listings of THAT directory count: the revoker lists the index of every token
+		// of the tree, later listings of other tokens' directories say nothing about this entry
+		if tr == "rev:list:"+dir || tr == "rev:listpage:"+dir {
+			lastList = i
 		}
 	}
 	if firstPut > lastList {
